@@ -31,6 +31,38 @@ NESTED_TX_OK = {
 }
 
 
+# explicit raises of non-Mistral exception classes that can escape an engine
+# entry point, each with the reason it is acceptable
+ESCAPE_OK = {
+    'ValueError @ mistral.engine.actions.RegularAction.complete':
+        'duplicate result: must NOT be a MistralException so that the '
+        'transaction rolls back (C03.R5)',
+    'RuntimeError @ mistral.engine.post_tx_queue._get_queue':
+        'programming error; unreachable from entry points by C01.R1',
+    'RuntimeError @ mistral.engine.task_handler._refresh_task_state':
+        '"must never get here": logical states are exhaustive by C01.R6',
+    'RuntimeError @ mistral.engine.tasks.WithItemsTask._decrease_capacity':
+        'invariant violation (capacity would go negative), C07.R3',
+    'RuntimeError @ mistral.engine.workflows.Workflow.'
+    '_send_result_to_parent_workflow':
+        'invariant: only called after a terminal CAS (C09.R1)',
+    'RuntimeError @ mistral.scheduler.base.SchedulerJob.__init__':
+        'programming error: every job names a function (C13.R6)',
+    'RuntimeError @ mistral.workflow.direct_workflow.'
+    'DirectWorkflowController._get_join_logical_state':
+        'join expression is constrained by the task schema (all/one/int)',
+    'ImportError @ mistral.scheduler.default_scheduler.DefaultScheduler.'
+    '_persist_job': 'serializer path is a code constant',
+    'ImportError @ mistral.services.legacy_scheduler._schedule_call':
+        'serializer path is a code constant',
+    'ValueError @ mistral.actions.adhoc.AdHocActionDescriptor.'
+    '_visit_hierarchy':
+        'cyclic ad-hoc action chain; inside workflows it is converted by '
+        'RegularAction.schedule (except Exception -> InvalidActionException)'
+        ', it escapes only from start_action, which is outside C01',
+}
+
+
 def is_ptq_run(f):
     return any(d in ('post_tx_queue.run', 'run') and
                (d != 'run' or f.module == PTQ) for d in f.decorators)
@@ -519,6 +551,37 @@ def run(ctx):
     r10 = ctx.rule('R10', 'task-graph walks end on cyclic definitions',
                    'termination device')
     c04.termination_devices(ctx, r10)
+
+    # ---- R11 explicit raises escaping engine entry points --------------------------------
+    r11 = ctx.rule('R11', 'explicit raises of undeclared error types that '
+                   'can escape an engine entry point equal the frozen '
+                   'table', 'WMW-reach (exception escape)')
+    from mstatic.escape import Escapes
+    es = Escapes(prog, cg)
+    ENGQ = 'mistral.engine.default_engine.DefaultEngine'
+    eroots = [m.qname for m in prog.methods_of(ENGQ)
+              if not m.name.startswith('_')]
+    eroots += [p for (_q, p, _a, _n) in cg.sched_sites if p in prog.funcs]
+    if len(set(eroots)) < 15:
+        raise AnalysisError('C01.R11: only %d engine entry points'
+                            % len(set(eroots)))
+    found = {}
+    for rq in sorted(set(eroots)):
+        for (cls, site), ln in es.raised.get(rq, {}).items():
+            if not es.is_declared(cls):
+                found.setdefault((cls, site), []).append(rq)
+    if len(found) < 5:
+        raise AnalysisError('C01.R11: escape analysis found only %d sites'
+                            % len(found))
+    for (cls, site), via in sorted(found.items()):
+        key = '%s @ %s' % (cls.rsplit('.', 1)[-1], site)
+        r11.check(key in ESCAPE_OK, site + ' :: raise ' +
+                  cls.rsplit('.', 1)[-1],
+                  'an explicit raise of %s (not one of the service\'s '
+                  'declared error types) can escape engine entry point(s) '
+                  '%s: callers and the REST layer only map Mistral errors'
+                  % (cls, sorted(v.rsplit('.', 1)[-1] for v in via)[:4]),
+                  prog.loc(site), ESCAPE_OK.get(key, ''))
 
     # ---- R9 no nested transactions (thorough) --------------------------------------------------
     if ctx.tier == 'thorough':
